@@ -1,5 +1,6 @@
 import TsVerif.Common.IO
 import TsVerif.C20.Judge
+import TsVerif.C20.Format
 /-!
 Driver for C20.  Protocol (hex = UTF-8 bytes in hex, `-` = empty):
 ```
@@ -104,9 +105,10 @@ def runCase (s : St) : String :=
   let delimLike := (e0.filter fun e =>
       (splitIncl e.input).any fun l => (parseDelimLine l '=').isSome || (parseDelimLine l '-').isSome).length
   let wf := e0.all fun e => e.attrs.cst || sexpLike e.output
-  let quoted := (e0 ++ e1).any fun e => (e.output.filter fun c => c == '\'' || c == '"').length ≥ 4
+  let quoted := (e0 ++ e1).any fun e => (e.output.filter fun c => c == '\'' || c == '"').length ≥ 2
+  let sxIn := (sexps.filter inFormatClass).length
   let model := if c1 == "ok" then "" else s!" model1={hexOf u1}"
-  s!"{s.id} parse0={p0} parse1={p1} upd1={c1} upd2={c2} judge={j} n0={e0.length} n1={e1.length} attrs={attrs} wrong={wrong} delimlike={delimLike} suffixed={if (firstSuffix (splitIncl s.orig)).isSome then 1 else 0} wrote={if s.wrote1 then 1 else 0} wf={if wf then 1 else 0} quoted={if quoted then 1 else 0} crlf={if s.orig.contains '\r' then 1 else 0} bytes={s.orig.length}{model}"
+  s!"{s.id} parse0={p0} parse1={p1} upd1={c1} upd2={c2} judge={j} n0={e0.length} n1={e1.length} attrs={attrs} wrong={wrong} delimlike={delimLike} suffixed={if (firstSuffix (splitIncl s.orig)).isSome then 1 else 0} wrote={if s.wrote1 then 1 else 0} wf={if wf then 1 else 0} sx={sexps.length} sxclass={sxIn} quoted={if quoted then 1 else 0} crlf={if s.orig.contains '\r' then 1 else 0} bytes={s.orig.length}{model}"
 
 def step (s : St) (line : String) : IO St := do
   match line.splitOn " " with
